@@ -8,8 +8,9 @@
 
    Conventions.
    * a circuit is its instruction list (Common/Circ.v); instruction_ids : list (list nat),
-     map_ids : option (list nat) (None = argument omitted).  Negative Python indices and
-     `None` entries inside map_ids are outside the model (the harness never sends them).
+     map_ids : option (list Z) (None = argument omitted; ids are Python ints, possibly negative).
+     Negative instruction indices and `None` entries inside map_ids are outside the model
+     (the harness never sends them).
    * benv : handle -> basis; two placeholders have equal handles iff QPDBasis.__eq__ holds.
    * Qiskit invariant used silently: an instruction whose operation is a TwoQubitQPDGate has
      two qubits, a SingleQubitQPDGate one qubit (QuantumCircuit.append enforces the arity), so
@@ -86,31 +87,33 @@ Definition set_bid_op (m : nat) (o : op) : op :=
   end.
 Definition set_bid (m : nat) (i : instr) : instr := mkI (set_bid_op m (iop i)) (iqs i) (ics i).
 
-(* circuit.data[gate_id].operation.basis_id = m ;  setter: m not in range(len(basis.maps)) -> ValueError *)
-Definition assign1 (benv : benv) (c : circ) (p m : nat) : res circ :=
+(* circuit.data[gate_id].operation.basis_id = m ;  setter: m not in range(0, len(basis.maps)) -> ValueError.
+   map ids are Python ints (Z): a negative id is out of range *)
+Definition assign1 (benv : benv) (c : circ) (p : nat) (m : Z) : res circ :=
   match nth_error c p with
   | None => Crashed
   | Some ins =>
       match basis_of ins with
       | None => Ok c                       (* unreachable after validate *)
-      | Some b => if Nat.ltb m (length (nth b benv [])) then Ok (upd c p (set_bid m ins)) else Refused
+      | Some b => if (Z.leb 0 m && Z.ltb m (Z.of_nat (length (nth b benv []))))%bool
+                  then Ok (upd c p (set_bid (Z.to_nat m) ins)) else Refused
       end
   end.
 
-Fixpoint assign_group (benv : benv) (c : circ) (g : list nat) (m : nat) : res circ :=
+Fixpoint assign_group (benv : benv) (c : circ) (g : list nat) (m : Z) : res circ :=
   match g with
   | [] => Ok c
   | p :: r => res_bind (assign1 benv c p m) (fun c' => assign_group benv c' r m)
   end.
 
 (* for i, decomp_gate_ids in enumerate(instruction_ids): ... map_ids[i] ; lengths are equal here *)
-Fixpoint assign_loop (benv : benv) (c : circ) (gm : list (list nat * nat)) : res circ :=
+Fixpoint assign_loop (benv : benv) (c : circ) (gm : list (list nat * Z)) : res circ :=
   match gm with
   | [] => Ok c
   | (g, m) :: r => res_bind (assign_group benv c g m) (fun c' => assign_loop benv c' r)
   end.
 
-Definition set_basis_ids (benv : benv) (c : circ) (ids : list (list nat)) (maps : option (list nat)) : res circ :=
+Definition set_basis_ids (benv : benv) (c : circ) (ids : list (list nat)) (maps : option (list Z)) : res circ :=
   match maps with
   | None => Ok c
   | Some ms => if negb (Nat.eqb (length ids) (length ms)) then Refused
@@ -230,7 +233,7 @@ Definition decompose_measurements (nc : nat) (c : circ) : circ * nat :=
 (* ---------- decompose_qpd_instructions ---------- *)
 (* result: new instruction list and the size of the new final register "qpd_measurements";
    nc = number of classical bits of the input circuit *)
-Definition decompose (benv : benv) (c : circ) (nc : nat) (ids : list (list nat)) (maps : option (list nat))
+Definition decompose (benv : benv) (c : circ) (nc : nat) (ids : list (list nat)) (maps : option (list Z))
   : res (circ * nat) :=
   res_bind (validate c ids) (fun _ =>
   res_bind (set_basis_ids benv c ids maps) (fun c1 =>
